@@ -156,10 +156,11 @@ def recompute_edge(df_features, cyc_idx, direction):
     edge = df_features.iloc[edge_range].copy()
 
     # Update dataframe with recomputed consistency features
-    df_features['amp_consistency'][cyc_idx] = \
+    #   Assign in a single step, chained assignment never reaches the dataframe with copy-on-write
+    df_features.loc[cyc_idx, 'amp_consistency'] = \
         compute_amp_consistency(edge, direction=direction)[1]
 
-    df_features['period_consistency'][cyc_idx] = \
+    df_features.loc[cyc_idx, 'period_consistency'] = \
         compute_period_consistency(edge, direction=direction)[1]
 
     return df_features
